@@ -260,39 +260,109 @@ class Transaction:
     def _with_verified_bounds(
         self, data_file: DataFile, table_schema: Optional[Schema]
     ) -> DataFile:
-        """The data file with column bounds that describe its content.
+        """The data file with statistics that describe its content.
 
-        lower_bounds / upper_bounds of a caller-built DataFile are the caller's
-        claim. prune_files_by_bounds trusts the stored bounds, so a claim that
-        does not enclose the file's values (stale statistics, bounds of another
-        file, ids of another schema) made scan(filter=...) return fewer rows
-        than the table holds. A file that comes with bounds gets them recomputed
-        from its content, exactly as append_data computes them for the files it
-        writes; without a table schema to map columns to field ids they are
-        dropped (no bounds: the file is never pruned). The caller's object is
-        left untouched.
+        Everything a caller-built DataFile says about the file's content is the
+        caller's claim, and every claim was stored as given:
+
+        - lower_bounds / upper_bounds: prune_files_by_bounds trusts the stored
+          bounds, so a claim that does not enclose the file's values (stale
+          statistics, bounds of another file, ids of another schema) made
+          scan(filter=...) return fewer rows than the table holds;
+        - column_sizes / value_counts / null_value_counts: manifests store
+          their keys as str(k) and read them back with int(k), so one key that
+          is no field id ("abc", 1.5, None) committed and made EVERY later read
+          of the table raise;
+        - checksum: reads verify each data file against its stored checksum, so
+          a checksum of other content made every scan raise CorruptDataError;
+        - record_count: row_count() sums the stored counts.
+
+        Nothing of this is stored unverified. record_count is taken from the
+        parquet footer. A supplied checksum must be the checksum of the file
+        (the file is refused otherwise - it is not the file the caller
+        described). Statistics maps and bounds that come with the file are
+        recomputed from the file, the bounds exactly as append_data computes
+        them for the files it writes; without a table schema to map columns to
+        field ids they are dropped (no bounds: the file is never pruned). The
+        caller's object is left untouched.
         """
-        if data_file.lower_bounds is None and data_file.upper_bounds is None:
-            return data_file
+        import pyarrow.parquet as pq
+
+        from .integrity import IntegrityChecker
+
+        dfm = self.file_manager.data_file_manager
+        has_bounds = data_file.lower_bounds is not None or data_file.upper_bounds is not None
+        has_counts = (
+            data_file.column_sizes is not None
+            or data_file.value_counts is not None
+            or data_file.null_value_counts is not None
+        )
+        content = None
+        footer = None
+        try:
+            with dfm.open_parquet_source(data_file.file_path) as src:
+                parquet_file = pq.ParquetFile(src)
+                footer = parquet_file.metadata
+                if has_bounds and table_schema is not None:
+                    content = parquet_file.read()
+        except Exception as e:
+            # A table without a persisted schema enforces nothing about its
+            # files (append_files does not even require a readable footer
+            # there): what cannot be read cannot be counted, the supplied
+            # count is kept.
+            if table_schema is None:
+                footer = None
+            else:
+                raise ValueError(
+                    f"Cannot read '{data_file.file_path}' to verify the statistics "
+                    f"supplied with it: {e}. Refusing to append a file with unverified "
+                    f"statistics - wrong bounds make filtered scans drop rows, a wrong "
+                    f"record count falsifies row_count()."
+                ) from e
+
+        if data_file.checksum is not None:
+            with self.file_manager.storage.open_file(data_file.file_path.lstrip("/")) as stream:
+                actual_checksum = IntegrityChecker.compute_checksum_from_stream(stream)
+            if data_file.checksum != actual_checksum:
+                raise ValueError(
+                    f"Data file '{data_file.file_path}' does not have the checksum supplied "
+                    f"with it ({data_file.checksum!r}; the stored file has {actual_checksum}). "
+                    f"Reads verify data files against their stored checksum, so appending it "
+                    f"would make table scans fail."
+                )
 
         lower_bounds = None
         upper_bounds = None
-        if table_schema is not None:
-            import pyarrow.parquet as pq
-
-            dfm = self.file_manager.data_file_manager
-            try:
-                with dfm.open_parquet_source(data_file.file_path) as src:
-                    content = pq.read_table(src)
-            except Exception as e:
-                raise ValueError(
-                    f"Cannot read '{data_file.file_path}' to verify the column bounds "
-                    f"supplied with it: {e}. Refusing to append a file with unverified "
-                    f"bounds - wrong bounds make filtered scans drop rows."
-                ) from e
+        if content is not None and table_schema is not None:
             lower_bounds, upper_bounds = dfm._compute_column_bounds(content, table_schema)
+
+        column_sizes = None
+        value_counts = None
+        null_value_counts = None
+        if has_counts and table_schema is not None:
+            field_ids = {f.get("name"): f.get("id") for f in table_schema.fields}
+            column_sizes, value_counts, null_value_counts = {}, {}, {}
+            for rg in range(footer.num_row_groups):
+                group = footer.row_group(rg)
+                for ci in range(group.num_columns):
+                    column = group.column(ci)
+                    field_id = field_ids.get(column.path_in_schema.split(".")[0])
+                    if not isinstance(field_id, int) or isinstance(field_id, bool):
+                        continue
+                    column_sizes[field_id] = column_sizes.get(field_id, 0) + column.total_compressed_size
+                    value_counts[field_id] = value_counts.get(field_id, 0) + column.num_values
+                    stats = column.statistics
+                    if stats is not None and stats.has_null_count:
+                        null_value_counts[field_id] = null_value_counts.get(field_id, 0) + stats.null_count
+
         return dataclasses.replace(
-            data_file, lower_bounds=lower_bounds, upper_bounds=upper_bounds
+            data_file,
+            record_count=footer.num_rows if footer is not None else data_file.record_count,
+            column_sizes=column_sizes if data_file.column_sizes is not None else None,
+            value_counts=value_counts if data_file.value_counts is not None else None,
+            null_value_counts=null_value_counts if data_file.null_value_counts is not None else None,
+            lower_bounds=lower_bounds,
+            upper_bounds=upper_bounds,
         )
 
     def append_pandas(
